@@ -740,6 +740,11 @@ static int vnadata_save_common(vnadata_t *vdp, FILE *fp, const char *filename,
     aprecision = MAX(vdip->vdi_dprecision, 3);
 
     /*
+     * Init conversions to NULL.
+     */
+    (void)memset((void *)conversions, 0, sizeof(conversions));
+
+    /*
      * Remember the file type and format the caller has set.  Below, the
      * file type found from the filename, the default format and the
      * parameter type of "ri", "ma" and "dB" are filled in for this
@@ -756,11 +761,6 @@ static int vnadata_save_common(vnadata_t *vdp, FILE *fp, const char *filename,
 	    goto out;
 	}
     }
-
-    /*
-     * Init conversions to NULL.
-     */
-    (void)memset((void *)conversions, 0, sizeof(conversions));
 
     /*
      * Validate parameters.  These errors are for the application
